@@ -263,6 +263,12 @@ def run(repo, rep):
     rep.clause("C10-k", "needed_total_padding is the reference's total SAME padding for every extent, stride and filter size (function interpreted on a grid)")
     rep.clause("C10-l", "axis-named locals of the stripe generator (k_height_dilation ..) take values of their own axis")
     rule_round7(repo, rep)
+    rep.clause("C10-m", "cascade bookkeeping: all operators of a cascade share one time slot [C12-k]; the rolling buffer keeps the memory type of the storage it is placed in [C02-d]")
+    from . import c02 as _c02m
+    from . import c12 as _c12m
+
+    rep.run_borrowed(_c12m, {"C12-k": "C10-m"}, repo)
+    rep.run_borrowed(_c02m, {"C02-d": "C10-m"}, repo, only_sites=("apply_schedule",))
     rule_rolling_buffer_addressing(repo, rep)
     rule_tensor_effect_order(repo, rep)
     rule_tile_base_offset_side(repo, rep)
